@@ -211,7 +211,8 @@ def self_check(v, deep=False):
         s = v if isinstance(v, AnsiString) else v._s
         for _ in env.lib_mod._AnsiSettingsIterator(s._fmts):
             pass
-        for i in range(len(s)):
+        n = len(s)
+        for i in (range(n) if n <= 64 else list(range(8)) + list(range(n - 8, n))):
             s.ansi_settings_at(i)
         if deep:
             renderings(s)
@@ -227,6 +228,8 @@ def closed_check(v):
     """Closedness: text appended to v keeps only its own style, and v's characters keep theirs.
     Returns None or a description."""
     try:
+        if len(v) > 64:
+            return closed_check_long(v)
         t, cells = alpha_codes(v)
         w = v + 'x'
         t2, c2 = alpha_codes(w)
@@ -248,6 +251,20 @@ def closed_check(v):
     except Exception as e:  # noqa
         return 'closedness probe raised %s: %s' % (type(e).__name__, e)
     return None
+
+
+def closed_check_long(v):
+    """Closedness for long values (huge pads): only the seam and both ends are read."""
+    n = len(v)
+    w = v + 'x'
+    if w.base_str != v.base_str + 'x':
+        return "v+'x' has the wrong text"
+    if [str(x) for x in w.ansi_settings_at(n)] != []:
+        return "appended plain 'x' reports settings %s" % [str(x) for x in w.ansi_settings_at(n)]
+    for i in (0, 1, n // 2, n - 2, n - 1):
+        if tuple(str(x) for x in w.ansi_settings_at(i)) != tuple(str(x) for x in v.ansi_settings_at(i)):
+            return "v+'x' changed v's character %d" % i
+    return self_check(w)
 
 
 def healthy(v):
